@@ -5,7 +5,7 @@ package main
 // and written to Gen/Code/<Func>.lean.  The refinement theorems (Props/Refine/*.lean) then prove that
 // this regenerated code computes what the hand-written model computes, for every input.
 //
-// The translator is deliberately strict: it knows the static type of every expression it accepts
+// (~1850 lines.)  The translator is deliberately strict: it knows the static type of every expression it accepts
 // (a dozen types), the exact set of library calls the package makes, and it REFUSES everything else
 // (the function is then reported as untranslatable and no definition is emitted, which breaks the
 // refinement obligations of every property that depends on it).  In particular it refuses:
@@ -359,6 +359,14 @@ func (f *fnTr) ident(x *ast.Ident) tval {
 	if g, ok := f.t.globals[x.Name]; ok {
 		if where, mut := f.t.assigned[x.Name]; mut {
 			f.bad(x, "package-level %s is assigned or mutated in %s", x.Name, where)
+		}
+		if strings.HasPrefix(g.typ, "const:") {
+			v, _ := new(big.Int).SetString(g.term, 10)
+			c := tval{term: intLeanLit(v), typ: "untyped", cst: v}
+			if t := strings.TrimPrefix(g.typ, "const:"); t != "untyped" {
+				return f.convConst(x, c, t)
+			}
+			return c
 		}
 		return tval{term: g.term, typ: g.typ}
 	}
@@ -1615,6 +1623,18 @@ func newTranslator(fset *token.FileSet, files map[string]*ast.File, langConsts [
 						if v.Kind == token.STRING && x.Tok == token.CONST {
 							if s, ok := strLit(v.Value); ok {
 								t.globals[name] = global{typ: "string", lean: leanItems(items(s)), term: leanId(name)}
+							}
+						}
+						// const name = 11   /   const name int = 11   (named magic numbers)
+						if v.Kind == token.INT && x.Tok == token.CONST {
+							if n, ok := intLit(Lit{Kind: "INT", Val: v.Value}); ok {
+								typ := "untyped"
+								if vs.Type != nil {
+									typ = normType(typeName(vs.Type))
+								}
+								if typ == "untyped" || typ == "int" || typ == "int64" || typ == "uint" {
+									t.globals[name] = global{typ: "const:" + typ, term: n.String()}
+								}
 							}
 						}
 					case *ast.CompositeLit:
